@@ -39,7 +39,7 @@ func init() {
 				}
 				return 150_000
 			}, Run: c20Generator,
-				Min: map[string]int64{"strings": 100000, "implicit_repeats": 20000, "move_demoted_to_line": 5000, "subpaths": 20000, "arcs": 20000, "no_transform": 10000, "with_transform": 50000, "relative_first_move": 10000, "transform_slice_reused": 10000, "transform_reset_to_identity": 10000, "transform_replaced": 10000, "pure_translation_transforms": 2000,
+				Min: map[string]int64{"strings": 100000, "implicit_repeats": 20000, "move_demoted_to_line": 5000, "subpaths": 20000, "arcs": 20000, "no_transform": 10000, "with_transform": 50000, "relative_first_move": 10000, "transform_slice_reused": 10000, "transform_reset_to_identity": 10000, "reset_through_generator_after_settransform": 10000, "after_an_earlier_malformed_call": 5000, "transform_replaced": 10000, "pure_translation_transforms": 2000,
 					"verb_H": 1000, "verb_h": 1000, "verb_V": 1000, "verb_v": 1000, "verb_T": 1000, "verb_t": 1000, "verb_S": 1000, "verb_s": 1000, "verb_Q": 1000, "verb_q": 1000, "verb_C": 1000, "verb_c": 1000, "verb_A": 1000, "verb_a": 1000}},
 			{Name: "converter", N: func(t string) uint64 {
 				if t == "thorough" {
@@ -47,7 +47,7 @@ func init() {
 				}
 				return 150_000
 			}, Run: c20Converter,
-				Min: map[string]int64{"strings": 100000, "with_opacity": 20000, "opacity_register_reused": 5000, "circles": 20000, "circle_only_paths": 1000, "offsets_nonzero": 20000, "icons_with_six_distinct_opacities": 2000, "zero_radius_circles": 3000}},
+				Min: map[string]int64{"strings": 100000, "with_opacity": 20000, "opacity_register_reused": 5000, "circles": 20000, "circle_only_paths": 1000, "offsets_nonzero": 20000, "icons_with_six_distinct_opacities": 2000, "zero_radius_circles": 3000, "explicit_opacity_of_one": 5000}},
 			{Name: "concat", N: func(t string) uint64 {
 				if t == "thorough" {
 					return 8_000_000
@@ -259,6 +259,27 @@ func c20Generator(c *run.Ctx, idx uint64) {
 			}
 		}
 	}
+	resetAfterTransform := r.Chance(1, 5)
+	if resetAfterTransform {
+		// the transform was configured once, up front; the graphic is started afterwards
+		// (Reset reaches the destination through the Generator)
+		g.Reset(ivg.DefaultViewBox, ivg.DefaultPalette)
+		c.Count("reset_through_generator_after_settransform", 1)
+	}
+	if r.Chance(1, 8) {
+		// an earlier call on this Generator was given something that is not path data
+		// (outside the claim, whatever it does); the well-formed call that follows is inside
+		// (same destination, not set again: the recorder simply forgets what that call delivered)
+		func() {
+			defer func() { recover() }() // what a malformed string does is not judged
+			g.SetPathData(r.PickS("R4 4z", "M1 2X3z"), 0)
+		}()
+		d.Ops = d.Ops[:0]
+		if resetAfterTransform {
+			g.Reset(ivg.DefaultViewBox, ivg.DefaultPalette)
+		}
+		c.Count("after_an_earlier_malformed_call", 1)
+	}
 	c.Count("strings", 1)
 	for i, p := range ops {
 		if i > 0 {
@@ -304,6 +325,9 @@ func c20Generator(c *run.Ctx, idx uint64) {
 	if err != nil {
 		c.Violate("generator/well-formed-path-rejected", map[string]interface{}{"path": s, "error": err.Error()})
 		return
+	}
+	if resetAfterTransform && len(d.Ops) > 0 && d.Ops[0].K == rec.KReset {
+		d.Ops = d.Ops[1:]
 	}
 	if i, why := c20Compare(d.Ops, exp); i >= 0 {
 		dd := map[string]interface{}{"path": s, "transform": tdesc, "adj": adj, "index": i, "got": opStr(d.Ops, i)}
@@ -402,16 +426,26 @@ func c20Converter(c *run.Ctx, idx uint64) {
 		}
 		if opacity != 1 {
 			o := opacity
-			if r.Bool() {
+			switch r.Intn(4) {
+			case 0, 1:
 				p.Opacity = &o
-			} else {
+			case 2:
 				p.FillOpacity = &o
-				if r.Chance(1, 4) {
-					one := float32(1)
-					_ = one
-				}
+			default:
+				// both attributes: the opacity wins, whatever the fill-opacity says
+				other := float32(r.PickF(1, 0.25, 0.75))
+				p.Opacity, p.FillOpacity = &o, &other
 			}
 			c.Count("with_opacity", 1)
+		} else if r.Chance(1, 6) {
+			// an explicit opacity of exactly 1 is an opacity: the path stays opaque
+			// even if a fill-opacity says otherwise
+			one, other := float32(1), float32(r.PickF(0.4, 0.5, 1))
+			p.Opacity = &one
+			if r.Bool() {
+				p.FillOpacity = &other
+			}
+			c.Count("explicit_opacity_of_one", 1)
 		}
 		var circles []mdicons.Circle
 		if pi == 0 && r.Chance(1, 3) || p.D == "" {
